@@ -5,6 +5,7 @@ theorems are projected.
 -/
 import RioModel.Model.Loop
 set_option linter.unusedSimpArgs false
+set_option linter.unusedSectionVars false
 
 namespace Rio.Loop
 
@@ -170,11 +171,11 @@ theorem body_cases {i : Nat} {st : State U M} (inv : Inv step get i st) :
             exact Bool.noConfusion this
           cases hext : ext newUrl with
           | true =>
-            exact Or.inr (Or.inl ⟨hnm, hext, by simp [body, hs, hred, hany, hext, herr1]⟩)
+            exact Or.inr (Or.inl ⟨hnm, rfl, by simp [body, hs, hred, hany, hext, herr1]⟩)
           | false =>
             by_cases hge : i ≥ maxHops
-            · exact Or.inr (Or.inr (Or.inl ⟨hnm, hext, hge, by simp [body, hs, hred, hany, hext, hge]⟩))
-            · exact Or.inr (Or.inr (Or.inr ⟨hnm, hext, by omega,
+            · exact Or.inr (Or.inr (Or.inl ⟨hnm, rfl, hge, by simp [body, hs, hred, hany, hext, hge]⟩))
+            · exact Or.inr (Or.inr (Or.inr ⟨hnm, rfl, by omega,
                 by simp [body, hs, hred, hany, hext, hge, herr1]⟩))
 
 /-- The invariant is re-established by a turn that pushes a fresh hop and goes on. -/
@@ -332,13 +333,42 @@ theorem runCount_spec : ∀ (n i : Nat) (st : State U M) (c : Nat),
   | zero => intro i st c; simp [runCount, run]
   | succ n ih =>
     intro i st c
-    simp only [runCount, run]
     cases hb : body step ext get maxHops i st with
     | mk st' b =>
       cases b with
       | true =>
         have := ih (i + 1) st' (c + 1)
+        simp only [runCount, run, hb]
         exact ⟨this.1, by omega⟩
-      | false => exact ⟨rfl, by simp only; omega⟩
+      | false =>
+        simp only [runCount, run, hb]
+        exact ⟨trivial, by omega⟩
+
+/-- A turn of the loop only ever appends to `hops`. -/
+theorem body_prefix (i : Nat) (st : State U M) :
+    ∃ l, (body step ext get maxHops i st).1.hops = st.hops ++ l := by
+  unfold body
+  repeat' split
+  all_goals first | exact ⟨[], by simp⟩ | exact ⟨[_], rfl⟩
+
+theorem run_prefix : ∀ (n i : Nat) (st : State U M),
+    ∃ l, (run step ext get maxHops i n st).hops = st.hops ++ l := by
+  intro n
+  induction n with
+  | zero => intro i st; exact ⟨[], by simp [run]⟩
+  | succ n ih =>
+    intro i st
+    obtain ⟨l, hl⟩ := body_prefix step ext get maxHops i st
+    cases hb : body step ext get maxHops i st with
+    | mk st' b =>
+      rw [hb] at hl
+      cases b with
+      | true =>
+        obtain ⟨l2, hl2⟩ := ih (i + 1) st'
+        refine ⟨l ++ l2, ?_⟩
+        simp only [run, hb]
+        rw [hl2, hl, List.append_assoc]
+      | false =>
+        exact ⟨l, by simp only [run, hb]; exact hl⟩
 
 end Rio.Loop
